@@ -313,6 +313,16 @@ def culprit(ast, rctx, exp_fn, obs_fn, ref, ctx_ok=lambda n: True, depth=0):
                 psuffix = '/predicate-only:' + _pred_kinds(st_[3])
             kind = bad_diffs.pop() if len(bad_diffs) == 1 else 'mixed'
             return f'{kind}/{label}/ctx-' + '+'.join(sorted(bad_kinds)) + psuffix
+        if st_[3]:
+            # no single usable context node reproduces it (e.g. the context is the hidden implicit document): look into the
+            # predicates from the nodes that the bare step selects according to the reference
+            cands = {}
+            for n in base_nodes[:60]:
+                for c in exp_fn(bare, n)[1]:
+                    cands[id(c)] = c
+            inner = _pred_culprit(st_[3], sorted(cands.values(), key=lambda m: m.order), exp_fn, obs_fn, ref, ctx_ok, depth)
+            if inner is not None:
+                return inner + '/in-predicate'
         usable = [n for n in base_nodes if ctx_ok(n)]
         return f'{kind}/{label}/combine-%s' % ('multi' if len(base_nodes) > 1 else 'single') + \
             ('' if len(usable) == len(base_nodes) else '-from-' + '+'.join(sorted({n.kind for n in base_nodes if not ctx_ok(n)}))) + psuffix
@@ -903,7 +913,11 @@ def judge_history(case, rec: Recorder | None = None) -> list[Disc]:
             if got != fresh:
                 discs.append(Disc(f'C01/history/reused-{name}-differs-from-fresh-select/{edit["op"]}', fresh, got, detail()))
         # independent expectation, only where the first application agreed with the reference (known defects stay in C01/ref)
-        if exp_before is not None and exp_after is not None and before == exp_before:
+        # (not for an Element root - '/child::' on the hidden implicit document - nor for paths through following:: or two
+        # attribute steps: those are the recorded findings of the ref sub-check and would only be repeated here)
+        axes = [st_[1] for st_ in xdm.iter_steps(ast)]
+        clean = cfg['rootkind'] == 'doc' and 'following' not in axes and axes.count('attribute') < 2
+        if clean and exp_before is not None and exp_after is not None and before == exp_before:
             for name, got in (('Selector.select', again), ('select', fresh)):
                 if got != exp_after:
                     discs.append(Disc(f'C01/history/{name}-after-edit-differs-from-reference/{edit["op"]}', exp_after, got, detail()))
